@@ -93,6 +93,18 @@ def draw_cfg(rng, prop: str, tier: str, overrides=None) -> dict:
             w[k] = 0
         elif r < 0.4:
             w[k] *= rng.choice([0.3, 3])
+    # swarm members with trees far beyond the usual size: wide (one parent with very many
+    # children), deep (long chains) or just big - sizes/depths/counts that small random
+    # trees never reach
+    cfg["shape"] = None
+    if rng.random() < 0.05:
+        cfg["shape"] = rng.choice(["wide", "deep", "big"])
+        cfg["max_nodes"] = rng.choice([120, 300])
+        cfg["length"] = rng.randint(80, 160 if tier == "quick" else 400)
+        w["add"] = w.get("add", 30) * 6
+        for k in ("clear", "remove_children"):
+            w[k] = 0
+        cfg["p_refuse"] = min(cfg["p_refuse"], 0.1)
     cfg["weights"] = w
     keys = []
     for f in flav:
@@ -148,9 +160,13 @@ def ref_of(si: int, m: MNode) -> str:
     return f"T{si}" if m.is_root() else m.uid
 
 
-def pick_parent(rng, w: World, si: int) -> MNode:
+def pick_parent(rng, w: World, si: int, shape=None) -> MNode:
     mt = w.slots[si].model
     ns = mt.nodes()
+    if ns and shape == "deep" and rng.random() < 0.8:
+        return ns[-1] if rng.random() < 0.5 else max(ns, key=lambda n: n.depth())
+    if ns and shape == "wide" and rng.random() < 0.8:
+        return ns[0] if rng.random() < 0.6 else mt.root
     if not ns or rng.random() < 0.25:
         return mt.root
     return rng.choice(ns)
@@ -158,6 +174,8 @@ def pick_parent(rng, w: World, si: int) -> MNode:
 
 def pick_data_src(rng, cfg, w: World, si: int) -> dict:
     ns = nodes_of(w, si)
+    if cfg.get("shape") and "s" in cfg["flavours"] and rng.random() < 0.7:
+        return {"data": f"s:L{rng.randrange(400)}"}  # many distinct labels for big trees
     if ns and rng.random() < cfg["p_reuse"]:
         return {"data_of": rng.choice(ns).uid}
     f = rng.choice(cfg["flavours"])
@@ -216,7 +234,7 @@ def gen_add(rng, cfg, w: World, opid: int, invalid: bool, steer: bool):
             op["parent"] = self_m.uid
             P = self_m.parent
     if api not in ("append_sibling", "prepend_sibling"):
-        P = pick_parent(rng, w, si)
+        P = pick_parent(rng, w, si, cfg.get("shape"))
         if P.is_root() and api != "add":
             api = "add"  # the shortcuts exist on nodes only
         op["parent"] = ref_of(si, P)
